@@ -1287,7 +1287,13 @@ class Exec:
             for k, v in kws.items():
                 self.bound_vars["kw_" + k] = v
             for a in self.c.asserts.get(kk, []):
-                f = self.spec(a)
+                try:
+                    f = self.spec(a)
+                except Undecidable as e:
+                    # an assertion that cannot be evaluated (an argument became opaque ...) must not vanish: it stays an
+                    # open obligation (unconstrained truth value -> never proved; reported as undecided, see runner)
+                    self.labels.setdefault(("abstracted",), []).append(f"assertion `{a[:60]}` at {kk} not evaluable ({e})")
+                    f = self.fresh("unevaluable", B)
                 self.oblige("assert", f"at {kk} `{src_of(n)[:80]}`: {a}", f, n)
             self.bound_vars = saved_b
         occ = self.labels.get(("callocc", fn), 0) + 1
